@@ -60,6 +60,12 @@
     pub struct InvalidStatusCode(pub ());
     impl StatusCode {
         pub const CONTINUE: StatusCode = StatusCode(100);
+        pub const SWITCHING_PROTOCOLS: StatusCode = StatusCode(101);
+        pub const OK: StatusCode = StatusCode(200);
+        pub const NO_CONTENT: StatusCode = StatusCode(204);
+        pub const MOVED_PERMANENTLY: StatusCode = StatusCode(301);
+        pub const FOUND: StatusCode = StatusCode(302);
+        pub const SEE_OTHER: StatusCode = StatusCode(303);
         pub const NOT_MODIFIED: StatusCode = StatusCode(304);
         pub const TEMPORARY_REDIRECT: StatusCode = StatusCode(307);
         pub const PERMANENT_REDIRECT: StatusCode = StatusCode(308);
@@ -68,6 +74,10 @@
         { if src >= 100 && src <= 999 { Ok(StatusCode(src)) } else { Err(InvalidStatusCode(())) } }
         pub fn as_u16(&self) -> (r: u16) ensures r == self.0 { self.0 }
         pub fn is_redirection(&self) -> (r: bool) ensures r == (300 <= self.0 <= 399) { self.0 >= 300 && self.0 <= 399 }
+        pub fn is_informational(&self) -> (r: bool) ensures r == (100 <= self.0 <= 199) { self.0 >= 100 && self.0 <= 199 }
+        pub fn is_success(&self) -> (r: bool) ensures r == (200 <= self.0 <= 299) { self.0 >= 200 && self.0 <= 299 }
+        pub fn is_client_error(&self) -> (r: bool) ensures r == (400 <= self.0 <= 499) { self.0 >= 400 && self.0 <= 499 }
+        pub fn is_server_error(&self) -> (r: bool) ensures r == (500 <= self.0 <= 599) { self.0 >= 500 && self.0 <= 599 }
     }
     impl PartialEq<StatusCode> for u16 {
         #[verifier::external_body]
